@@ -4,9 +4,9 @@ import json
 import common
 
 THEOREMS = ["c02_fatal_origin", "c02_framework", "c02_plain", "c02_walker_safe", "c02_walker_unchecked_refuted",
-            "c02_gentime_safe", "c02_gentime_guard_needed", "c02_bodies_total", "c02_gentime_range", "c02_dn_printable"]
+            "c02_gentime_safe", "c02_gentime_guard_needed", "c02_bodies_total", "c02_gentime_range", "c02_dn_printable", "c02_crl_lints_range", "c02_crl_entry_order"]
 
-BODIES_HEADER = """From ZL Require Import Base.Bytes Base.Corr Kernels.Bodies.
+BODIES_HEADER = """From ZL Require Import Base.Bytes Base.Corr Kernels.Bodies Kernels.Crl.
 From Coq Require Import ZArith.
 Open Scope Z_scope.
 Definition oz (x : out Z) : Z := match x with Val s => s | OOR => -1 end.
@@ -22,6 +22,9 @@ Definition chk_authority (c : bool * bool * bytes * option bytes) : bool :=
   match c with (ok, opq, u, o) => ob_eq (get_authority ok opq u) o end.
 Fixpoint lz_eqb (a b : list Z) : bool :=
   match a, b with [] , [] => true | x :: a', y :: b' => (x =? y) && lz_eqb a' b' | _, _ => false end.
+Fixpoint zl_ok (m o : list Z) : bool := match m, o with [], [] => true | x :: m', y :: o' => ((y =? -9) || (x =? y)) && zl_ok m' o' | _, _ => false end.
+Definition chk_crl (c : crl_view * list Z) : bool := zl_ok (all_crl_lints (fst c)) (snd c).
+Definition chk_ocsp (c : Z * Z * Z) : bool := match c with (t, p, s) => o_this_update_not_after_produced_at t p =? s end.
 Definition chk_dnprint (c : list bytes * Z) : bool := oz (dn_not_printable (fst c)) =? snd c.
 Definition chk_bmp (c : bytes * option (option (list Z))) : bool :=
   match parse_bmp (fst c), snd c with
@@ -39,6 +42,8 @@ BODY_STREAMS = [
     ("host", "chk_host", "Bodies.get_host vs util.GetHost"),
     ("authority", "chk_authority", "Bodies.get_authority vs util.GetAuthority (net/url's verdict as input)"),
     ("bmp", "chk_bmp", "Bodies.parse_bmp vs util.ParseBMPString (code units)"),
+    ("crl", "chk_crl", "Crl.all_crl_lints (eight revocation-list lints, modelled in full) vs the real lints on corpus, re-dated and generated CRLs under both configurations"),
+    ("ocsp", "chk_ocsp", "Crl.o_this_update_not_after_produced_at vs e_this_update_not_after_produced_at on corpus and generated responses"),
     ("dnprint", "chk_dnprint", "Bodies.dn_not_printable vs e_subject_dn_not_printable_characters on the attribute values of zoo and crafted subjects"),
 ]
 
